@@ -19,22 +19,26 @@ func PartialServiceAreaListToNas(plmnID models.PlmnId, serviceAreaRestriction mo
 		allowedType = nasMessage.AllowedTypeNonAllowedArea
 	}
 
-	numOfElements := uint8(len(serviceAreaRestriction.Areas))
-
-	firstByte := (allowedType<<7)&0x80 + numOfElements // only support TypeOfList '00' now
 	plmnIDNas := PlmnIDToNas(plmnID)
 
-	partialServiceAreaList = append(partialServiceAreaList, firstByte)
+	partialServiceAreaList = append(partialServiceAreaList, 0) // first octet is filled in below
 	partialServiceAreaList = append(partialServiceAreaList, plmnIDNas...)
 
+	numOfElements := uint8(0)
 	for _, area := range serviceAreaRestriction.Areas {
 		for _, tac := range area.Tacs {
 			if tacBytes, err := hex.DecodeString(tac); err != nil {
 				logger.ConvertLog.Warnf("Decode tac failed: %+v", err)
 			} else {
 				partialServiceAreaList = append(partialServiceAreaList, tacBytes...)
+				numOfElements++
 			}
 		}
 	}
+	// only support TypeOfList '00' now; the number of elements is coded as (number of TACs - 1)
+	if numOfElements > 0 {
+		numOfElements--
+	}
+	partialServiceAreaList[0] = (allowedType<<7)&0x80 + numOfElements&0x1f
 	return partialServiceAreaList
 }
